@@ -789,3 +789,20 @@ Proof.
   - intros x [].
   - cbn [length]. lia.
 Qed.
+
+(* ================= the full agreement statement is false ================= *)
+(* "whenever the code accepts a manifest, the graph it builds is the documented one" *)
+Definition C12_eval_agrees_full : Prop :=
+  forall fm fuel r g, eval_manifest fm fuel r = Ok g -> spec_manifest fm fuel r = Ok g.
+
+Theorem C12_eval_agrees_refuted : ~ C12_eval_agrees_full.
+Proof.
+  intros H.
+  destruct (eval_manifest (single root m_file_shadows_rule) 4 root) as [g|f l c] eqn:E;
+    [|vm_compute in E; discriminate E].
+  pose proof (H _ _ _ _ E) as Hs.
+  assert (Hd : dump_binding k_description 0 (eval_manifest (single root m_file_shadows_rule) 4 root)
+               = dump_binding k_description 0 (spec_manifest (single root m_file_shadows_rule) 4 root)).
+  { rewrite E, Hs. reflexivity. }
+  vm_compute in Hd. discriminate Hd.
+Qed.
